@@ -632,3 +632,9 @@ func (p *Prog) InstrPos(in ssa.Instruction) string {
 	}
 	return "-"
 }
+
+// HasConst reports whether package corebgp declares the named constant.
+func (p *Prog) HasConst(name string) bool {
+	_, ok := p.Types.Scope().Lookup(name).(*types.Const)
+	return ok
+}
